@@ -26,7 +26,7 @@ def delay_strategy(clock, legal=True):
             return st.one_of(st.sampled_from(_F_DELAY).map(fx),
                              st.floats(0.0, 30.0).map(fx),
                              st.sampled_from([5e-324, 1e-9, 1e300, float("inf")]).map(fx))
-        return st.one_of(st.sampled_from([-1.0, -0.5, -5e-324, -1e300, float("-inf")]).map(fx),
+        return st.one_of(st.sampled_from([-1.0, -0.5, -5e-324, -1e300, float("-inf"), -1e-10, -1e-12, -4e-16]).map(fx),
                          st.floats(-30.0, -1e-9).map(fx))
     if clock == "int":
         if legal:
@@ -51,8 +51,9 @@ def abs_strategy(clock):
 
 def rep_strategy(clock):
     if clock == "float":
-        start = st.sampled_from([0.0, 0.0, 0.0, 5.0, -3.0, 100.0, 0.1]).map(fx)
-        length = st.one_of(st.sampled_from([10.0, 10.0, 5.0, 1.0, 20.0, 0.5, 7.0]), st.floats(0.1, 40.0)).map(fx)
+        # (an int start time with float lengths is common: SingleReplication("rep", 0, 0.0, 10.5))
+        start = st.one_of(st.sampled_from([0.0, 0.0, 0.0, 5.0, -3.0, 100.0, 0.1]).map(fx), st.sampled_from([0, 0, 5, -3]))
+        length = st.one_of(st.sampled_from([10.0, 10.0, 5.0, 1.0, 20.0, 0.5, 7.0, 10.5, 2.25]), st.floats(0.1, 40.0)).map(fx)
         warm = st.one_of(st.sampled_from([0.0, 0.0, 1.0, 2.0, 2.5, 5.0, 10.0, 50.0]), st.floats(0.0, 12.0)).map(fx)
     elif clock == "int":
         start = st.sampled_from([0, 0, 0, 5, -3, 100])
@@ -83,6 +84,9 @@ def action_strategy(clock, illegal=True, cancel=True, extra=None, prio=None):
         acts.append((12, st.tuples(st.just("cancel"), st.integers(0, 999))))
     if illegal:
         acts.append((4, st.tuples(st.just("rel"), delay_strategy(clock, legal=False), node, PRIO)))
+        # a time (slightly or clearly) before the clock through schedule_event_abs and schedule_event(SimEvent(..))
+        acts.append((2, st.tuples(st.just("abs_off"), delay_strategy(clock, legal=False), node, PRIO)))
+        acts.append((3, st.tuples(st.just("ev_off"), delay_strategy(clock, legal=False), node, PRIO)))
         bad = ["none_abs", "str_abs", "str_rel", "none_rel"]
         if clock != "int":
             bad += ["nan_abs", "nan_rel", "nan_ev", "nan_abs", "nan_rel"]
